@@ -31,6 +31,9 @@ UNITS = {
         {"name": "C17_BIN", "test": "TestC17_BIN", "quick": 80, "thorough": 1600, "shards": 4, "bin": True},
         {"name": "C17_EXH", "test": "TestC17_EXH", "quick": 0, "thorough": 262144, "shards": 16, "exclusive": True, "exhaustive_thorough": True},
     ],
+    "C11": [
+        {"name": "C11_INP", "test": "TestC11_INP", "quick": 500, "thorough": 6000, "shards": 16, "shrink": "60s"},
+    ],
     "C16": [
         {"name": "C16_INP", "test": "TestC16_INP", "quick": 4000, "thorough": 40000, "shards": 12},
         {"name": "C16_BIN", "test": "TestC16_BIN", "quick": 60, "thorough": 400, "shards": 4, "bin": True},
@@ -38,6 +41,8 @@ UNITS = {
 }
 
 RULES = {
+    "C11": "case = (transport, phase at which the tunnel ends 0-5, traffic in flight none/client/host/both, way of ending: CLOSE_CHANNEL, out-of-order packet, unframeable bytes, FIN or RST of websocket / legacy IN / legacy OUT); "
+           "non-trivial = a backend connection existed or data was in flight; release bound 5 s",
     "C02": "case = sequence of 1-6 steps, each presenting one member of a token family built around a valid token (single-character/bit mutations, re-signing under other keys/algorithms, claim edits, JSON/nested forms, garbage) or changing the identity provider's state for an access token; "
            "verdict from an independent HS256/claims verifier; non-trivial = at least one presented token that is not pure garbage",
     "C03": "case = (host-selection mode, host list with/without placeholder, user, token host, requested name as raw UTF-16 + port) where the request is an allowed entry or a near-miss of one; "
